@@ -50,6 +50,7 @@ query Fr { user { ...UF } }
 query Li { users { id } }
 query Sc($d: Date) { when(d: $d) }
 query Cnt { count }
+query typing { user { id name } }
 query Fav { favourite }
 query Shades { shades }
 query Loc($query: String, $variables: Int, $response: ID, $data: Int) { echo(query: $query, variables: $variables, response: $response, data: $data) }
@@ -70,6 +71,7 @@ PAYLOADS = {
     "Li": {"users": [{"id": "1"}, {"id": "2"}]},
     "Sc": {"when": "2020-01-01"},
     "Cnt": {"count": 3},
+    "typing": {"user": {"id": "9", "name": None}},
     "Fav": {"favourite": "GREEN"},
     "Shades": {"shades": ["RED", "GREEN"]},
     "Loc": {"echo": 1},
@@ -79,7 +81,7 @@ PAYLOADS = {
     "RootOne": {"count": 9},
     "RootMix": {"count": 1, "users": []},
 }
-SINGLE_TOP = {"One": "user", "Un": "thing", "Fr": "user", "Li": "users", "Sc": "when", "Cnt": "count", "Fav": "favourite", "Shades": "shades", "Loc": "echo", "Mu": "rename", "Su": "tick", "RootOne": "count"}
+SINGLE_TOP = {"One": "user", "Un": "thing", "Fr": "user", "Li": "users", "Sc": "when", "Cnt": "count", "typing": "user", "Fav": "favourite", "Shades": "shades", "Loc": "echo", "Mu": "rename", "Su": "tick", "RootOne": "count"}
 
 ORDERS = [()]
 # quick tier: every ordered selection of <= 3 plugins + all five in two orders; thorough tier: every ordered selection (326)
